@@ -66,6 +66,26 @@ func c11Inputs(c *mon.Ctx, idx int) (s string, pathological bool, kind string) {
 		return c15Mutate(r, rd.Render(xgen.RandTree(r, 1+r.Intn(3)))), false, "mutated"
 	default: // chains, and long inputs whose error is found early
 		n := 1 + r.Intn(40)
+		if (idx/6)%5 == 3 {
+			// many distinct recorded errors before the budget runs out: invalid
+			// bytes at different offsets of one literal / a chain of undecodable literals
+			k := 8 + r.Intn(12)
+			var sb strings.Builder
+			if r.Intn(2) == 0 {
+				sb.WriteString(`a == "`)
+				for i := 0; i < k; i++ {
+					sb.WriteString("x")
+					sb.WriteByte([]byte{0xff, 0xfe, 0xc0, 0x80}[i%4])
+				}
+				sb.WriteString(`" and b != 2 and (c == 3 or d in e)`)
+			} else {
+				for i := 0; i < k; i++ {
+					fmt.Fprintf(&sb, `a%d == "\q%d" and `, i, i)
+				}
+				sb.WriteString(`((b != 2)) and (c == 3 or d in e)`)
+			}
+			return sb.String(), false, "many-soft-errors"
+		}
 		if (idx/6)%2 == 0 {
 			tail := strings.Repeat([]string{"z", " z", "(", "\"", " and", "1 "}[r.Intn(6)], 300+r.Intn(3000))
 			return c10Corpus[r.Intn(len(c10Corpus))] + " " + tail, false, "long-tail"
@@ -320,6 +340,35 @@ func c11Run(c *mon.Ctx, idx int) {
 			return
 		}
 	}
+	// layout twins: the same expression with blanks around it needs more steps;
+	// a budget that suffices for the bare text and not for the padded one must
+	// refuse the padded one also right after the bare one was created under it
+	if base.ok && idx%3 == 0 && threshold > 1 {
+		for _, padded := range []string{"  \t" + s + "\n\n  ", s + "    ", "\n" + s} {
+			pr, perr2 := c11Parse(padded, 0)
+			if perr2 != "" || !pr.ok || pr.steps <= threshold+1 {
+				continue
+			}
+			n := threshold
+			ev1, err1, _, _ := createEval(s, bexpr.WithMaxExpressions(n))
+			ev2, err2, pan2, _ := createEval(padded, bexpr.WithMaxExpressions(n))
+			c.Evals(2)
+			if ev1 == nil || err1 != nil {
+				break
+			}
+			if pan2 != "" || ev2 != nil || !isMaxExprErr(err2) {
+				viol("padded-twin-accepted-below-its-threshold", "after the bare text was created under a budget, the same text with blanks around it was accepted under that budget although it needs more steps",
+					map[string]any{"input": fmt.Sprintf("%q", clip(padded, 200)), "budget": n, "steps_needed_padded": pr.steps, "error": fmt.Sprint(err2) + pan2})
+				return
+			}
+			_, gerr, _, _ := parsePublic(padded, grammar.MaxExpressions(n))
+			if !isMaxExprErr(gerr) {
+				viol("padded-twin-accepted-below-its-threshold", "grammar.Parse accepted a padded text under a budget below its step count", map[string]any{"input": fmt.Sprintf("%q", clip(padded, 200)), "budget": n})
+				return
+			}
+			c.Count("padded_twins_checked")
+		}
+	}
 	// the other entry points take the same options: ParseReader and ParseFile
 	// must honour a budget exactly like Parse; and an Option VALUE can be
 	// used for more than one parse
@@ -378,7 +427,7 @@ func init() {
 		NumCases: func(tier string) int { return tierN(tier, 1200, 40000) },
 		Run:      c11Run,
 		Required: func(tier string) []string {
-			return []string{"inputs", "entry_point_parity_checked", "parsefile_parity_checked", "concurrent_budget_rounds", "valid_inputs", "invalid_inputs", "pathological_inputs", "pathological_rejected_within_budget", "rejected_below_threshold", "inputs_with_every_budget", "kind:nested-balanced", "kind:nested-unbalanced", "kind:long-tail", "kind:chain"}
+			return []string{"inputs", "entry_point_parity_checked", "parsefile_parity_checked", "concurrent_budget_rounds", "valid_inputs", "invalid_inputs", "pathological_inputs", "pathological_rejected_within_budget", "rejected_below_threshold", "inputs_with_every_budget", "kind:nested-balanced", "kind:nested-unbalanced", "kind:long-tail", "kind:chain", "kind:many-soft-errors", "padded_twins_checked"}
 		},
 	})
 }
